@@ -255,8 +255,8 @@ func (c *rapidContext) watchEvents(events <-chan supvmodel.Event) {
 		// At the moment we only get termination events.
 		// When their are other event types then we would need to be selective,
 		// about what we send to handleShutdownEvent().
-		c.shutdownContext.handleProcessExit(*termination)
 		c.registrationService.CancelFlows(err)
+		c.shutdownContext.handleProcessExit(*termination)
 	}
 }
 
